@@ -158,7 +158,7 @@ def main(ctx, args):
     if not build_harness(ctx, bins=["runprog"]):
         ctx.finish()
     times = 10 if ctx.tier == "quick" else 40
-    plan = [("core", 500), ("deep", 150), ("closure_assign", 150), ("aggr", 400)] if ctx.tier == "quick" else [("core", 6000), ("deep", 2000), ("closure_assign", 2000), ("aggr", 4000)]
+    plan = [("core", 500), ("deep", 150), ("closure_assign", 150), ("aggr", 400), ("nested_assign", 150)] if ctx.tier == "quick" else [("core", 6000), ("deep", 2000), ("closure_assign", 2000), ("aggr", 4000), ("nested_assign", 2000)]
     rng = coregen.Rng(ctx.seed * 104729 + 3)
     cases = []
     if args.replay:
